@@ -1,7 +1,11 @@
 package main
 
 import (
+	"fmt"
 	"go/token"
+	"go/types"
+	"sort"
+	"strings"
 
 	"golang.org/x/tools/go/ssa"
 )
@@ -177,6 +181,9 @@ type guard struct {
 	Cond  ssa.Value
 	Truth bool
 	If    *ssa.If
+	// Derived: implied by another guard of the same If (a named boolean built by a short-circuit chain, see
+	// boolPhiGuards); rules that report "an extra condition" skip derived guards — the guard they derive from is judged
+	Derived bool
 }
 
 // guardsOf returns the branch conditions that hold on every path into block b: for each dominating
@@ -196,9 +203,93 @@ func guardsOf(b *ssa.BasicBlock) []guard {
 		}
 		for i, s := range id.Succs {
 			if s == d && len(s.Preds) == 1 && id.Succs[0] != id.Succs[1] {
-				out = append(out, guard{Cond: iff.Cond, Truth: i == 0, If: iff})
+				g := guard{Cond: iff.Cond, Truth: i == 0, If: iff}
+				more := boolPhiGuards(g, 0)
+				if len(more) > 0 {
+					// a named boolean that could be expanded is fully represented by what it expands to
+					if v, _ := g.asBool(); v != nil {
+						if _, isPhi := v.(*ssa.Phi); isPhi {
+							g.Derived = true
+						}
+					}
+				}
+				out = append(out, g)
+				out = append(out, more...)
 			}
 		}
+	}
+	return out
+}
+
+// boolPhiGuards: a condition that is a named boolean built by a short-circuit chain (`ok := a && b && c; if ok {`, or
+// the || form) is a phi whose edges are the constant false (true) except one: when the phi is true (false), control
+// came through that one edge, so the conditions that hold in its predecessor block hold too, and so does the edge's own
+// value.  The derived guards carry the original If.
+var boolPhiNesting int
+
+func boolPhiGuards(g guard, depth int) []guard {
+	if depth > 3 || boolPhiNesting > 3 {
+		return nil
+	}
+	boolPhiNesting++
+	defer func() { boolPhiNesting-- }()
+	v, truth := g.asBool()
+	ph, ok := v.(*ssa.Phi)
+	if !ok {
+		// `p != nil` (or `p == nil` being false) for a pointer/channel/interface phi some of whose edges are the
+		// constant nil: control came through one of the other edges; when there is exactly one, its predecessor's
+		// conditions hold (the "set it to nil on mismatch, test for nil later" idiom)
+		if cm, isCmp := g.asCmp(); isCmp && cm.Op == token.NEQ && isNilConst(cm.Y) {
+			if pp, isPhi := cm.X.(*ssa.Phi); isPhi {
+				live := -1
+				for i, e := range pp.Edges {
+					if isNilConst(e) {
+						continue
+					}
+					if live >= 0 {
+						return nil
+					}
+					live = i
+				}
+				if live >= 0 && live < len(pp.Block().Preds) {
+					var out []guard
+					for _, pg := range guardsOf(pp.Block().Preds[live]) {
+						pg.If = g.If
+						pg.Derived = true
+						out = append(out, pg)
+					}
+					return out
+				}
+			}
+		}
+		return nil
+	}
+	if b, isB := ph.Type().Underlying().(*types.Basic); !isB || b.Kind() != types.Bool {
+		return nil
+	}
+	live := -1
+	for i, e := range ph.Edges {
+		if cb, isC := constBool(e); isC && cb == !truth {
+			continue // this edge makes the phi the opposite of what we know
+		}
+		if live >= 0 {
+			return nil // two edges can produce the known value: nothing follows
+		}
+		live = i
+	}
+	if live < 0 || live >= len(ph.Block().Preds) {
+		return nil
+	}
+	var out []guard
+	for _, pg := range guardsOf(ph.Block().Preds[live]) {
+		pg.If = g.If
+		pg.Derived = true
+		out = append(out, pg)
+	}
+	if _, isC := constBool(ph.Edges[live]); !isC {
+		eg := guard{Cond: ph.Edges[live], Truth: truth, If: g.If, Derived: true}
+		out = append(out, eg)
+		out = append(out, boolPhiGuards(eg, depth+1)...)
 	}
 	return out
 }
@@ -329,6 +420,9 @@ func returnedValues(ret *ssa.Return) []ssa.Value {
 			out[i] = last
 		}
 	}
+	for i := range out {
+		out[i] = throughPassThrough(out[i])
+	}
 	return out
 }
 
@@ -344,4 +438,142 @@ func returnsOf(f *ssa.Function) []*ssa.Return {
 		}
 	}
 	return out
+}
+
+// passThroughParam: f (a function of the analysed module, with a body) hands back one of its parameters as its first
+// result on every return path — a helper like `func restoreQid(r *[]byte, q []byte) *[]byte { ...; return r }`.
+// Returns the parameter index (receiver included) or -1.
+var passThroughCache = map[*ssa.Function]int{}
+
+func passThroughParam(f *ssa.Function) int {
+	if f == nil || len(f.Blocks) == 0 || !inMosdns(f) {
+		return -1
+	}
+	if v, ok := passThroughCache[f]; ok {
+		return v
+	}
+	passThroughCache[f] = -1
+	idx := -1
+	for _, b := range f.Blocks {
+		ret, ok := b.Instrs[len(b.Instrs)-1].(*ssa.Return)
+		if !ok {
+			continue
+		}
+		if len(ret.Results) == 0 {
+			return -1
+		}
+		k := -1
+		for i, prm := range f.Params {
+			if ret.Results[0] == ssa.Value(prm) {
+				k = i
+			}
+		}
+		if k < 0 || (idx >= 0 && idx != k) {
+			return -1
+		}
+		idx = k
+	}
+	passThroughCache[f] = idx
+	return idx
+}
+
+// throughPassThrough strips calls of pass-through helpers: `restoreQid(r, q)` denotes r.
+func throughPassThrough(v ssa.Value) ssa.Value {
+	for d := 0; d < 4; d++ {
+		cl, ok := v.(*ssa.Call)
+		if !ok {
+			return v
+		}
+		sc := cl.Call.StaticCallee()
+		k := passThroughParam(sc)
+		if k < 0 || k >= len(cl.Call.Args) {
+			return v
+		}
+		v = cl.Call.Args[k]
+	}
+	return v
+}
+
+// reachPhiAware is reachFromBlock that follows flag variables: when a block is entered over an edge that gives a boolean
+// phi of that block a constant value (`matched = false; break` … `if !matched`), a later branch on that phi (or its
+// negation) is followed only along the matching successor. Everything else is path-insensitive as in reachFromBlock.
+func reachPhiAware(start, enteredFrom *ssa.BasicBlock, target, avoid instrPred) (ssa.Instruction, bool) {
+	type state struct {
+		b   *ssa.BasicBlock
+		env string
+	}
+	seen := map[state]bool{}
+	envKey := func(env map[*ssa.Phi]bool) string {
+		var ks []string
+		for ph, v := range env {
+			ks = append(ks, fmt.Sprintf("%s=%v", ph.Name(), v))
+		}
+		sort.Strings(ks)
+		return strings.Join(ks, ",")
+	}
+	var walk func(b, from *ssa.BasicBlock, env map[*ssa.Phi]bool) (ssa.Instruction, bool)
+	walk = func(b, from *ssa.BasicBlock, env map[*ssa.Phi]bool) (ssa.Instruction, bool) {
+		// resolve the boolean phis of b for the edge from -> b
+		if from != nil {
+			ne := map[*ssa.Phi]bool{}
+			for k, v := range env {
+				ne[k] = v
+			}
+			env = ne
+			for _, in := range b.Instrs {
+				ph, ok := in.(*ssa.Phi)
+				if !ok {
+					break
+				}
+				delete(env, ph)
+				for i, p := range b.Preds {
+					if p == from {
+						if v, isC := constBool(ph.Edges[i]); isC {
+							env[ph] = v
+						} else if src, isPhi := ph.Edges[i].(*ssa.Phi); isPhi {
+							if v, known := ne[src]; known {
+								env[ph] = v
+							}
+						}
+					}
+				}
+			}
+		}
+		st := state{b, envKey(env)}
+		if seen[st] {
+			return nil, false
+		}
+		seen[st] = true
+		for _, in := range b.Instrs {
+			if avoid != nil && avoid(in) {
+				return nil, false
+			}
+			if target(in) {
+				return in, true
+			}
+		}
+		succs := b.Succs
+		if iff, ok := terminator(b).(*ssa.If); ok && len(b.Succs) == 2 {
+			cond, neg := iff.Cond, false
+			if u, isNot := cond.(*ssa.UnOp); isNot && u.Op == token.NOT {
+				cond, neg = u.X, true
+			}
+			if ph, isPhi := cond.(*ssa.Phi); isPhi {
+				if v, known := env[ph]; known {
+					if v != neg {
+						succs = b.Succs[:1]
+					} else {
+						succs = b.Succs[1:]
+					}
+				}
+			}
+		}
+		for _, s := range succs {
+			if t, ok := walk(s, b, env); ok {
+				return t, true
+			}
+		}
+		return nil, false
+	}
+	return walk(start, enteredFrom, map[*ssa.Phi]bool{})
 }
